@@ -121,6 +121,12 @@ CHECKS = {
         note="Trusted: z3, CPython, rsx. 'Performing touches exactly what was announced' is executed on concrete witness projects (in the replay path and the containment instances), not symbolically. Two genuine internal-exception defects found here were fixed in /repo.",
         design="§5 C09",
     ),
+    "C13": dict(
+        level="other",
+        text="Solver-decided, path-exhaustive within stated bounds (Pattern C): the real Project, PyCore, _ModuleCache, _FileListCacher, FilteredResourceObserver and ChangeIndicator run on the model file system with a symbolic pre-state (which paths exist; symbolic module contents), a solver-chosen warm-up and a solver-chosen sequence of mutations through rope (write, create, move, remove, undo) and behind its back (edit, create, remove directly on the model, mtime advanced) followed by validate(); after every step the long-lived project's file list, Python-file list, module lookup for every module name of the universe, module source (solver equality on symbolic text) and defined names must equal those of a brand-new Project over the same model state. Counterexamples are replayed on the real file system.",
+        note="Trusted: z3, CPython, rsx.mfs. Assumes an external modification changes mtime or size (A7). Not covered (C boundary / not modelled): the sqlite autoimport index, the object-info database, occurrence search and inferred attribute sets.",
+        design="§5 C13",
+    ),
 }
 
 NOT_YET = "check not built yet (see DESIGN.md §5 for the planned decision procedure)"
